@@ -111,12 +111,13 @@ Decrypt(ids, hdr) == IF Len(ids) = 0 THEN [c |-> "noidentities", fk |-> "-", tri
 
 \* ---------------------------------------------------------------- attacker edits of a header
 OtherOfType(k) == LET S == {x \in Keys : KType(x) = KType(k) /\ x # k} IN IF S = {} THEN k ELSE CHOOSE x \in S : TRUE
-SubstOf(s) == {[what |-> "type", s |-> [s EXCEPT !.type = "other"]],
-               [what |-> "badlen", s |-> [s EXCEPT !.shape = "badlen"]],
-               [what |-> "badargs", s |-> [s EXCEPT !.shape = "badargs"]]}
-              \cup (IF s.wk \in Keys THEN {[what |-> "fk", s |-> [s EXCEPT !.fk = AK]],                         \* re-wrapped attacker key
-                                           [what |-> "wk", s |-> [s EXCEPT !.wk = OtherOfType(s.wk),
-                                                                    !.tag = IF s.tag = "-" THEN "-" ELSE OtherOfType(s.wk)]]}
+SubstOf(s) == {[what |-> "type", key |-> "-", s |-> [s EXCEPT !.type = "other"]],
+               [what |-> "badlen", key |-> "-", s |-> [s EXCEPT !.shape = "badlen"]],
+               [what |-> "badargs", key |-> "-", s |-> [s EXCEPT !.shape = "badargs"]]}
+              \cup (IF s.wk \in Keys THEN {[what |-> "fk", key |-> s.wk, s |-> [s EXCEPT !.fk = AK]],                  \* re-wrapped attacker key
+                                           [what |-> "wk", key |-> OtherOfType(s.wk),                                    \* re-addressed to another key
+                                            s |-> [s EXCEPT !.wk = OtherOfType(s.wk),
+                                                            !.tag = IF s.tag = "-" THEN "-" ELSE OtherOfType(s.wk)]]}
                     ELSE {})
 Forged(k) == StanzaFor(KeyRecip(k), AK)
 GreaseStanza == StanzaFor(Grease, FK)
@@ -125,7 +126,7 @@ RemAt(ss, p) == SubSeq(ss, 1, p - 1) \o SubSeq(ss, p + 1, Len(ss))
 PermFns(n) == {g \in [1..n -> 1..n] : \A a, b \in 1..n : a # b => g[a] # g[b]}
 \* an edit is a record describing itself (for the replayer) together with the edited stanza sequence
 Edits(ss) ==
-     UNION {{[e |-> "subst", p |-> p, q |-> 0, what |-> x.what, key |-> "-", perm |-> <<>>, ss |-> [ss EXCEPT ![p] = x.s]] : x \in SubstOf(ss[p])} : p \in 1..Len(ss)}
+     UNION {{[e |-> "subst", p |-> p, q |-> 0, what |-> x.what, key |-> x.key, perm |-> <<>>, ss |-> [ss EXCEPT ![p] = x.s]] : x \in SubstOf(ss[p])} : p \in 1..Len(ss)}
 \cup {[e |-> "insert", p |-> p, q |-> 0, what |-> "grease", key |-> "-", perm |-> <<>>, ss |-> InsAt(ss, p, GreaseStanza)] : p \in 1..(Len(ss) + 1)}
 \cup {[e |-> "insert", p |-> p, q |-> 0, what |-> "forged", key |-> k, perm |-> <<>>, ss |-> InsAt(ss, p, Forged(k))] : p \in 1..(Len(ss) + 1), k \in Keys}
 \cup {[e |-> "delete", p |-> p, q |-> 0, what |-> "-", key |-> "-", perm |-> <<>>, ss |-> RemAt(ss, p)] : p \in 1..Len(ss)}
